@@ -9,8 +9,8 @@ import rbcommon as rb
 
 
 def on_disagreement(c, binary, ln, il, ml, d):
-    f = ln.split()
-    cont, cmpn, ops = f[0], f[1], f[3:]
+    cont, cmpn, items = rb.case_items(ln)     # (op, observed?) pairs: re-runs keep the observation pattern
+    ops = [o for o, _ in items]
     i, fld, ri, rm = d
     opn = rb.OPNAME.get((cont, ops[i].split(",")[0]), "?") if i < len(ops) else "?"
     sig = "C01:%s:%s" % (cont, opn if not rb.is_abort(ri[0]) else "panic-or-hang")   # coarse: container + operation
@@ -20,34 +20,36 @@ def on_disagreement(c, binary, ln, il, ml, d):
     c.cov["disagreeing_histories"] = c.cov.get("disagreeing_histories", 0) + 1
 
     def both(cand):
-        line = "%s %s 1 %s" % (cont, cmpn, " ".join(cand))
+        line = rb.line_of(cont, cmpn, cand)
         impl = rb.run_impl(c, binary, [line], timeout=60)
         spec = rb.run_spec(c, [line])
         a = impl[0]
         return line, a, spec[0], rb.first_diff(cont, a, spec[0], rb.API)
 
-    line, a, sp, ds = both(ops)
+    line, a, sp, ds = both(items)
     if ds is None:
-        # the implementation agrees with the abstract map but not with the concrete model (or only at a
-        # stride-hidden step): the refinement theorem's model no longer describes this code
+        # the implementation agrees with the abstract map but not with the concrete model: the refinement
+        # theorem's model no longer describes this code
         c.report(sig + ":model", "%s: implementation and model disagree on %s after %s, but the abstract map agrees "
                  "with the implementation" % (rb.CONT_NAME[cont], rb.FIELD[fld], opn),
                  {"kind": "correspondence", "case": ln[:4000], "op_index": i, "implementation": ";".join(ri)[:2000],
                   "model": ";".join(rm)[:2000]}, found_input=False)
         return
-    trunc = ops if a.startswith("<") else ops[:ds[0] + 1]     # a hang / crash loses the whole line
+    trunc = items if a.startswith("<") else items[:ds[0] + 1]     # a hang / crash loses the whole line
     mini = rb.minimise(trunc, lambda cand: both(cand)[3] is not None)
-    comp = rb.compact_keys(mini, cmpn)
+    comp = rb.compact_items(mini, cmpn)
     if both(comp)[3] is not None:
         mini = comp
     line, a, sp, ds = both(mini)
     j, fl, ra, rs = ds
+    bits = "".join(b for _, b in mini)
+    mini = [o for o, _ in mini]
     opn2 = rb.OPNAME.get((cont, mini[j].split(",")[0]), "?") if j < len(mini) else "?"
     c.report(sig,
              "%s (comparator %s): after %s the %s is %r, an abstract sorted map gives %r" % (
                  rb.CONT_NAME[cont], cmpn, opn2, rb.FIELD[fl], ra[fl] if fl < len(ra) else ra, rs[fl] if fl < len(rs) else rs),
              {"kind": "history", "container": rb.CONT_NAME[cont], "comparator": cmpn, "ops": mini,
-              "first_diverging_op": j, "implementation_record": ";".join(ra)[:2000], "abstract_map_record": ";".join(rs)[:2000],
+              "state_observed_after_op": bits, "first_diverging_op": j, "implementation_record": ";".join(ra)[:2000], "abstract_map_record": ";".join(rs)[:2000],
               "record_format": "ret;len;keys;vals;shape;sizefield;parentflag;calls",
               "original_history_ops": len(ops),
               "how": "echo '%s' | <harness> c01      (expected: echo ... | ocaml/modelrun rb spec)" % line[:3000]})
@@ -69,7 +71,7 @@ def main(tier):
              "strings} x insertion order x deletion order), generated from VERIF_SEED: ~60% valid ops, ~20% duplicates, ~20% absent keys, "
              "grow/churn/drain phases; after every op (every stride-th op for sizes > 64) return value, Size()/Len(), keys and values are "
              "compared with the extracted model; plus the bounded-exhaustive histories (every reachable shape up to the bound x every Add "
-             "into every gap x every Delete). non-trivial = at least 3 successful insertions/deletions; distinct by md5 of the case text",
+             "into every gap x every Delete) and the sparse-observation histories (the full-state observers and Size()/Len() run only after ~1/3 of the ops and never inside runs of 2-5 size-neutral mutations such as Delete-then-Add; return values still compared at every op). non-trivial = at least 3 successful insertions/deletions; distinct by md5 of the case text",
         assumptions=["the user's comparator is a strict weak order (Section hypotheses of the theorems: antisymmetry, transitivity of <, "
                      "compatibility of = with <); discharged for asc/desc/by-half in props/C01.v",
                      "the hand-written model RBModel.v/TreeMapModel.v describes internal/tree, tree, mapx.TreeMap, set.TreeSet "
